@@ -356,10 +356,12 @@ class TCPPacketGenerator(Device, OutMixIn):
                 f"Congestion window size = {self.congestion_control.cwnd:.1f}, last ack = {ackno}."
             )
 
-            if ack.packet_id in self.timers:
-                self.timers[ack.packet_id].stop()
-                del self.timers[ack.packet_id]
-                del self.sent_packets[ack.packet_id]
+            # the ACK is cumulative: every segment that ends at or below ackno
+            # has been received, not only the one that triggered this ACK
+            for pid in [p for p in self.timers if p + self.mss <= ackno]:
+                self.timers[pid].stop()
+                del self.timers[pid]
+                del self.sent_packets[pid]
 
             self.cwnd_avaialbe.put(True)
 
